@@ -18,7 +18,7 @@ OUT = '/tmp/evalout_' + name
 TIERS = os.environ.get('EVAL_TIERS', 'quick,thorough').split(',')
 SKIP = os.environ.get('EVAL_SKIP_CONFIRM') == '1'
 def sh(cmd, cwd=None, timeout=1800, env=ENV):
-    p = subprocess.run(cmd, shell=True, cwd=cwd, env=env, stdout=subprocess.PIPE, stderr=subprocess.STDOUT, text=True, timeout=timeout)
+    p = subprocess.run(cmd, shell=True, cwd=cwd, env=env, stdout=subprocess.PIPE, stderr=subprocess.STDOUT, text=True, errors='replace', timeout=timeout)
     return p.returncode, p.stdout
 if os.path.exists(WT):
     sh('git -C /repo worktree remove --force ' + WT)
